@@ -54,6 +54,7 @@ const (
 	sigC14DeadlineRetry    = "deadline-exceeded-not-retryable"
 	sigC14UnknownRetry     = "unknown-error-became-retryable"
 	sigC14Invented         = "success-turned-into-error"
+	sigC14UnknownIdentity  = "unknown-error-recognised-as-chord-error"
 )
 
 // scriptedVNode answers every chord.VNode method with the scripted error (or a
@@ -433,6 +434,15 @@ func c14Check(t c14T, rec *ev.Recorder, rig *c14Rig, defs []c14Def, m c14Method,
 		labels = append(labels, "origin:defined-nonretryable")
 	case cell.origin == "DeadlineExceeded":
 		labels = append(labels, "origin:deadline")
+	case strings.HasPrefix(cell.origin, "structured:"):
+		labels = append(labels, "origin:structured-unknown")
+		if wantRetry {
+			labels = append(labels, "origin:structured-retryable-at-origin")
+		}
+		var te interface{ Timeout() bool }
+		if errors.As(origin, &te) && te.Timeout() {
+			labels = append(labels, "origin:has-Timeout()-true")
+		}
 	default:
 		labels = append(labels, "origin:arbitrary")
 	}
@@ -454,16 +464,21 @@ func c14Check(t c14T, rec *ev.Recorder, rig *c14Rig, defs []c14Def, m c14Method,
 			c14Fail(t, rec, sig, cell, got, "%s: origin %s (%s) is not recognised by the caller: errors.Is(%q [%T], %s) = false",
 				m.name, target.name, cell.variant, got, got, target.name)
 		}
-		for i := range defs {
-			if defs[i].err != target.err && errors.Is(got, defs[i].err) {
+	}
+	// the caller must not see an identity the origin error did not have
+	for i := range defs {
+		if errors.Is(got, defs[i].err) && !errors.Is(origin, defs[i].err) {
+			if target != nil {
 				c14Fail(t, rec, sigC14WrongIdentity, cell, got, "%s: origin %s arrives as %s", m.name, target.name, defs[i].name)
+			} else {
+				c14Fail(t, rec, sigC14UnknownIdentity, cell, got, "%s: origin %q [%s] is no chord error but arrives as %s", m.name, origin, cell.origin, defs[i].name)
 			}
 		}
 	}
 	if gotRetry := chord.ErrorIsRetryable(got); gotRetry != wantRetry {
 		var sig string
 		switch {
-		case cell.origin == "DeadlineExceeded" && wantRetry:
+		case target == nil && wantRetry: // retryable without being a chord error: a deadline
 			sig = sigC14DeadlineRetry
 		case target == nil:
 			sig = sigC14UnknownRetry
@@ -481,9 +496,10 @@ func c14Check(t c14T, rec *ev.Recorder, rig *c14Rig, defs []c14Def, m c14Method,
 
 func TestC14(t *testing.T) {
 	rec := ev.New(t, "C14")
-	rec.Rule("Complete product {every errorDef-registered chord error (enumerated from the registry at run time) + context.DeadlineExceeded} x {bare, 5 wrappings: %w prefix, %w suffix, double %w, errors.Join, custom Unwrap type} x {24 RemoteNode call paths: 21 methods + 3 Server.Factory error paths}, each sent RemoteNode -> generated twirp client -> in-process RoundTripper -> generated twirp server -> chord.Server -> scripted node; plus rapid-generated arbitrary (unregistered) errors on random methods (sampled, not exhaustive). Oracle: errors.Is(got,E) for the defined E and for no other defined error; ErrorIsRetryable(got)==ErrorIsRetryable(origin). Non-trivial: wrapped or retryable at the origin. Distinct = distinct (method, origin error, wrapping, message).")
+	rec.Rule("Complete product {every errorDef-registered chord error (enumerated from the registry at run time) + context.DeadlineExceeded} x {bare, 5 wrappings: %w prefix, %w suffix, double %w, errors.Join, custom Unwrap type} x {24 RemoteNode call paths: 21 methods + 3 Server.Factory error paths}, each sent RemoteNode -> generated twirp client -> in-process RoundTripper -> generated twirp server -> chord.Server -> scripted node; plus, also as a complete product, a table of structured unknown errors (net.Error implementations with Timeout() true/false, *net.OpError, *net.DNSError, *url.Error, syscall.Errno, os.ErrDeadlineExceeded, context.Canceled, io errors, forwarded twirp errors, types with their own Timeout/Is/Unwrap methods, multi-errors, some carrying a chord error or a genuine deadline inside) x the same 6 forms x 24 call paths; plus rapid-generated arbitrary errors on random methods (sampled): random messages (incl. texts containing a chord message) and random chains of those wrapper types around random leaves. For every origin error the classification is COMPUTED at the origin (ErrorIsRetryable(origin), errors.Is(origin,E)). Oracle: errors.Is(got,E) for the chord error E the origin is; errors.Is(got,F) only if errors.Is(origin,F) (no invented identity, also for unknown errors); ErrorIsRetryable(got)==ErrorIsRetryable(origin). Non-trivial: wrapped or retryable at the origin. Distinct = distinct (method, origin error, wrapping, message).")
 	rec.Assume("the HTTP wire between twirp client and server is replaced by an in-process RoundTripper (request/response bodies, headers and status codes are the real generated ones)",
-		"an arbitrary error is one whose message is not exactly the message of a registered chord error (ErrorMapper identifies errors by message by design)")
+		"an arbitrary error is one whose message is not exactly the message of a registered chord error (ErrorMapper identifies errors by message by design)",
+		"an origin error is related to a chord sentinel through its Unwrap chain (what %w, errors.Join and wrapper types produce); types that claim equality with a chord sentinel through an Is method only are sent through as well but their outcome is recorded (observed:is-method-only-equivalence-*), not asserted; the same pattern for context.DeadlineExceeded IS asserted")
 	rec.Exhaustive(true)
 
 	c14Known = c14KnownStats{}
@@ -515,12 +531,24 @@ func TestC14(t *testing.T) {
 	}
 	if ev.Shard() == 0 { // the finite product is identical in every shard: run it once
 		c14Product(t, rec, rig, defs, methods)
+		c14StructuredProduct(t, rec, rig, defs, registered, methods)
+	}
+	var sentinels []error
+	for _, d := range defs {
+		sentinels = append(sentinels, d.err)
 	}
 
 	// arbitrary errors (sampled)
 
 	ev.RapidCheck(t, 3000, 60000, func(rt *rapid.T) {
 		m := methods[rapid.IntRange(0, len(methods)-1).Draw(rt, "method")]
+		if rapid.IntRange(0, 9).Draw(rt, "family") < 4 {
+			// structured unknown errors: random chains of transport / RPC wrapper types
+			origin := genStructuredError(msgs, sentinels).Draw(rt, "structured")
+			v := c14Variants[rapid.IntRange(0, len(c14Variants)-1).Draw(rt, "variant")]
+			c14CheckStructured(rt, rec, rig, defs, registered, m, "generated", v.name, v.wrap(origin), false)
+			return
+		}
 		var msg string
 		switch rapid.IntRange(0, 7).Draw(rt, "kind") {
 		case 0:
